@@ -38,6 +38,16 @@ SCHEMAS = [
     ("boolean", "boolean", [False, True, False, False, True, False]),
     ("int-many", "int", list(range(-3, 207))),
     ("bytes-big", "bytes", [b"a" * 70001, b"b" * 3, b"c" * 65537, b"d", b"".join(__import__("hashlib").blake2b(str(i).encode(), digest_size=64).digest() for i in range(2049)), b"f"]),  # values and block payloads beyond 64 KiB  # blocks of 70 records: the block count is a two-byte varint
+    # block counts whose varint is a byte with a meaning in text files: 5 records = 0x0A (LF), 13 = 0x1A (Ctrl-Z), 16 = 0x20 (space)
+    ("int-c5", "int", list(range(100, 115))),
+    ("string-c13", "string", ["s%d" % i for i in range(39)]),
+    ("int-c16", "long", [2 ** 40 + i for i in range(48)]),
+    # trailing fields that have defaults: a record cut inside them is still cut
+    ("trailing-defaults", {"type": "record", "name": "TD", "fields": [
+        {"name": "a", "type": "int"}, {"name": "b", "type": "string", "default": "dflt"}, {"name": "c", "type": "long", "default": 7},
+        {"name": "d", "type": ["null", "int"], "default": None}, {"name": "e", "type": {"type": "array", "items": "int"}, "default": []}]},
+     [{"a": 1, "b": "hello world", "c": 2 ** 40, "d": 5, "e": [1, 2]}, {"a": 2, "b": "", "c": 0, "d": None, "e": []}, {"a": 3, "b": "x", "c": -1, "d": 64, "e": [3]},
+      {"a": 4, "b": "y" * 70, "c": 8192, "d": None, "e": []}, {"a": 5, "b": "z", "c": 1, "d": 1, "e": [0]}, {"a": 6, "b": "w", "c": 2, "d": None, "e": [7, 8, 9]}]),
     ("tail", {"type": "record", "name": "Tail", "fields": [
         {"name": "f", "type": "float"}, {"name": "d", "type": "double"}, {"name": "by", "type": "bytes"},
         {"name": "fx", "type": {"type": "fixed", "name": "Fx", "size": 2}}, {"name": "m", "type": {"type": "map", "values": "boolean"}},
@@ -74,6 +84,10 @@ def build(fa, si, codec, nblocks):
     per = [[], [recs[0], recs[1]], [recs[2]], [recs[3], recs[4], recs[5]]]
     if name.endswith("-many"):
         per = [[], recs[0:70], recs[70:140], recs[140:210]]
+    m = __import__("re").search(r"-c(\d+)$", name)
+    if m:
+        c = int(m.group(1))
+        per = [[], recs[0:c], recs[c:2 * c], recs[2 * c:3 * c]]
     written = []
     for b in range(1, nblocks + 1):
         for r in per[b]:
